@@ -53,4 +53,4 @@ if sd.exists():
             title = re.sub(r"^#+\s*", "", first)
             title = re.sub(r"^%s\s*[-–—:]+\s*" % re.escape(j["id"]), "", title)
         print(f"| {j['id']} | {title[:170].replace('|', '/')} | {'pass' if j.get('pinned_tests_pass') else 'FAIL'} | {j.get('demo_on_repo_rc')} / {j.get('demo_on_patched_rc')} | "
-              f"{'`./check ' + j['property'] + '` (quick)' if j.get('detected') else 'MISSED'} | {str(what)[:160].replace('|', '/')} |")
+              f"{'`./check ' + j['property'] + '` (quick)' if j.get('detected') else ('not a violation any more (demo passes on the patched tree: neutralised by a later fix) - check rightly silent' if j.get('demo_on_patched_rc') == 0 and j.get('patch_applies') else ('patch no longer applies' if j.get('patch_applies') is False else 'MISSED'))} | {str(what)[:160].replace('|', '/')} |")
